@@ -453,9 +453,11 @@ def bad_tags(c, real, optstr):
     """[(kind, words a diagnostic could name)]: everything about the case that cannot work / is not a proper command line"""
     tags = []
     letters = [l for l, _ in c.opts]
-    last = lambda l: c.text(l, "c")
+    # the last option of a `_drop_last` case lacks its argument: it gives no value at all
+    valued = c.opts[:-1] if getattr(c, "_drop_last", False) else c.opts
+    last = lambda l: ([v for x, v in valued if x == l] or [None])[-1]
     for l, var, lo, nouns in NUMERIC:
-        for src, texts in (("cmdline", [v for x, v in c.opts if x == l]), ("env", [c.env[var]] if var in c.env else [])):
+        for src, texts in (("cmdline", [v for x, v in valued if x == l]), ("env", [c.env[var]] if var in c.env else [])):
             for i, t in enumerate(texts):
                 v = denotes(t)
                 names = ("-" + l, var if src == "env" else "-" + l, t) + nouns
@@ -465,7 +467,7 @@ def bad_tags(c, real, optstr):
                     tags.append(("%s:%s:out-of-range" % (src, l), names))
                 elif v < lo and i == len(texts) - 1 and (src == "cmdline" or last(l) is None):
                     tags.append(("%s:%s:too-small" % (src, l), names))
-    for x, v in c.opts:
+    for x, v in valued:
         if x == "l" and len(v) > real.lmax:
             tags.append(("cmdline:l:over-long", ("-l", "user", v)))
     avail = real.avail[c.pers]
@@ -563,6 +565,16 @@ def gen_table_cases(tab, real):
                 if has:
                     pats += [([(l, v1)], {var: ve}), ([(l, v1), (l, v2)], {var: ve}), ([(l, v1)], {var: hostile}),
                              ([(l, hostile)], {var: ve})]
+            if f in ("fanout", "connect_timeout", "command_timeout"):
+                # a number that parses but cannot work: refused by the sanity checks at the END of option processing
+                # (opt_verify), which has a branch of its own for each personality
+                small = "0" if f == "fanout" else "-1"
+                if has:
+                    pats += [([(l, small)], {}), ([(l, v1), (l, small)], {}), ([(l, small), (l, v1)], {})]
+                    if var:
+                        pats += [([(l, v1)], {var: small})]
+                if var:
+                    pats += [([], {var: small})]
             for opts, env in pats:
                 for front in (True, False):
                     o = (opts + [("w", "foo"), ("q", None)]) if front else ([("w", "foo"), ("q", None)] + opts)
@@ -666,7 +678,7 @@ def run(ctx):
         for letter in "ftu":
             for src in "ceb":
                 for i, v in enumerate(NUMS if not quick else NUMS):
-                    pers = ["dsh", "pdcp", "rpdcp"][(i + ord(letter)) % 3] if not quick else ("dsh" if i % 4 else "pdcp")
+                    pers = ["dsh", "pdcp", "rpdcp"][(i + ord(letter)) % 3] if not quick else ["pdcp", "dsh", "rpdcp", "dsh"][i % 4]
                     c = gen_single(pers, letter, src, v, real.files)
                     c.group = "single"
                     cases.append(c)
